@@ -2,7 +2,7 @@
    Model/Effects.v: a program accepted by the static check `safe` leaves every object of the caller's heap
    untouched, for ALL initial heaps and ALL argument tuples (any aliasing between arguments included). *)
 From Coq Require Import List Arith ZArith Bool.
-From TLV Require Import Model.Effects Proofs.EffectsProofs Proofs.EffectsProofsSk.
+From TLV Require Import Model.Effects Proofs.EffectsProofs Proofs.EffectsProofsSk Proofs.EffectsProofsGen.
 Import ListNotations.
 
 (* the frame theorem *)
@@ -137,6 +137,130 @@ Theorem C15_safe_is_sufficient_not_necessary : exists c, safe 1 c = false /\ for
   nth_error (snd (exec c (env0 args, h0))) o = nth_error h0 o.
 Proof. exact safe_not_necessary. Qed.
 Print Assumptions C15_safe_is_sufficient_not_necessary.
+
+(* ------------------------------------------------------------------ early exits ("returns (or raises)")
+   run c n = the program interrupted after n primitive effects (an exception propagating to the caller).
+   For ALL programs, argument tuples, heaps and interruption points n. *)
+Theorem C15_frame_raise : forall (c : cmd) (args : list ref) (h0 : heap),
+  safe (length args) c = true ->
+  forall n o, o < length h0 -> nth_error (snd (fst (run c n (env0 args, h0)))) o = nth_error h0 o.
+Proof. exact frame_raise. Qed.
+Print Assumptions C15_frame_raise.
+
+Theorem C15_frame_inplace_raise : forall (c : cmd) (args : list (ref * bool)) (h0 : heap),
+  safe_with (map snd args) c = true ->
+  closed_heap h0 -> closed_args h0 (inplace_roots args) ->
+  forall n o, o < length h0 -> ~ reach h0 (inplace_roots args) o ->
+  nth_error (snd (fst (run c n (env0 (map fst args), h0)))) o = nth_error h0 o.
+Proof. exact frame_inplace_raise. Qed.
+Print Assumptions C15_frame_inplace_raise.
+
+(* adequacy of `run`: with enough steps it IS exec, and whenever it completes it returns exec's state *)
+Theorem C15_run_size : forall c m s, run c (size c + m) s = (exec c s, Some m).
+Proof. exact run_size. Qed.
+Print Assumptions C15_run_size.
+Theorem C15_run_complete : forall c n s s' m, run c n s = (s', Some m) -> s' = exec c s.
+Proof. exact run_complete. Qed.
+Print Assumptions C15_run_complete.
+
+Example C15_run_nonvacuous :
+  snd (run old_parafac 10 (env0 demo_args, demo_heap)) = None /\
+  nth_error (snd (fst (run old_parafac 10 (env0 demo_args, demo_heap)))) 5 <> nth_error demo_heap 5 /\
+  nth_error (snd (fst (run old_parafac 10 (env0 demo_args, demo_heap)))) 7 = nth_error demo_heap 7 /\
+  snd (run old_parafac 100 (env0 demo_args, demo_heap)) = Some 12 /\
+  snd (run sk_parafac 40 (env0 demo_args, demo_heap)) = None.
+Proof. exact run_nonvacuous. Qed.
+
+(* ------------------------------------------------------------------ order-generic skeleton families: every number of
+   modes N, every number of sweeps, every length of the option lists, every update order (induction, no enumeration) *)
+Theorem C15_parafac_any_order_safe : forall N sweeps fmlen rm modes, safe 4 (sk_parafac_gen N sweeps fmlen rm modes) = true.
+Proof. exact parafac_gen_safe. Qed.
+Print Assumptions C15_parafac_any_order_safe.
+
+Theorem C15_parafac_any_order_frame : forall N sweeps fmlen rm modes (args : list ref) (h0 : heap) (n o : nat),
+  length args = 4 -> o < length h0 ->
+  nth_error (snd (fst (run (sk_parafac_gen N sweeps fmlen rm modes) n (env0 args, h0)))) o = nth_error h0 o.
+Proof. exact parafac_gen_frame. Qed.
+Print Assumptions C15_parafac_any_order_frame.
+
+Theorem C15_nn_parafac_hals_any_order_safe : forall N sweeps sclen fmlen fixed modes,
+  safe 4 (sk_nn_parafac_hals_gen N sweeps sclen fmlen fixed modes) = true.
+Proof. exact nn_parafac_hals_gen_safe. Qed.
+Print Assumptions C15_nn_parafac_hals_any_order_safe.
+
+Theorem C15_nn_parafac_hals_any_order_frame : forall N sweeps sclen fmlen fixed modes (args : list ref) (h0 : heap) (n o : nat),
+  length args = 4 -> o < length h0 ->
+  nth_error (snd (fst (run (sk_nn_parafac_hals_gen N sweeps sclen fmlen fixed modes) n (env0 args, h0)))) o = nth_error h0 o.
+Proof. exact nn_parafac_hals_gen_frame. Qed.
+Print Assumptions C15_nn_parafac_hals_any_order_frame.
+
+Theorem C15_tucker_any_order_safe : forall N sweeps modes, safe 3 (sk_tucker_gen N sweeps modes) = true.
+Proof. exact tucker_gen_safe. Qed.
+Print Assumptions C15_tucker_any_order_safe.
+
+Theorem C15_tucker_any_order_frame : forall N sweeps modes (args : list ref) (h0 : heap) (n o : nat),
+  length args = 3 -> o < length h0 ->
+  nth_error (snd (fst (run (sk_tucker_gen N sweeps modes) n (env0 args, h0)))) o = nth_error h0 o.
+Proof. exact tucker_gen_frame. Qed.
+Print Assumptions C15_tucker_any_order_frame.
+
+Theorem C15_initialize_cp_any_order_safe : forall N, safe 2 (sk_initialize_cp_gen N) = true.
+Proof. exact initialize_cp_gen_safe. Qed.
+Theorem C15_initialize_tucker_any_order_safe : forall N, safe 2 (sk_initialize_tucker_gen N) = true.
+Proof. exact initialize_tucker_gen_safe. Qed.
+Print Assumptions C15_initialize_tucker_any_order_safe.
+
+Example C15_generic_skeletons_on_demo_heap :
+  footprint (sk_parafac_gen 3 2 2 (Some 1) [0; 1; 2]) demo_args demo_heap = [] /\
+  footprint (sk_nn_parafac_hals_gen 3 2 2 2 [0] [1; 2]) demo_args demo_heap = [].
+Proof. exact gen_instances_demo. Qed.
+
+(* ------------------------------------------------------------------ process_regularization_weights (solvers/penalizations.py)
+   The code copies its list arguments first (fix 58815dd, found by this check in round 2); None entries (nr, ns) and
+   unregularised modes (dg) are then assigned into the copies: safe for EVERY list length and assignment pattern. *)
+Theorem C15_process_regularization_weights_safe : forall n nr ns dg mx, safe 2 (sk_prw n nr ns dg mx) = true.
+Proof. exact prw_safe. Qed.
+Print Assumptions C15_process_regularization_weights_safe.
+
+Theorem C15_process_regularization_weights_frame : forall n nr ns dg mx (args : list ref) (h0 : heap) (k o : nat),
+  length args = 2 -> o < length h0 ->
+  nth_error (snd (fst (run (sk_prw n nr ns dg mx) k (env0 args, h0)))) o = nth_error h0 o.
+Proof. exact prw_frame. Qed.
+Print Assumptions C15_process_regularization_weights_frame.
+
+(* sensitivity: the code before the fix *)
+Theorem C15_prefix_process_regularization_weights_rejected : forall nr ns dg mx, nr ++ ns ++ dg <> [] -> safe 2 (old_prw nr ns dg mx) = false.
+Proof. exact old_prw_unsafe. Qed.
+Print Assumptions C15_prefix_process_regularization_weights_rejected.
+
+Theorem C15_prefix_process_regularization_weights_changes_arguments :
+  footprint (old_prw [0] [1] [] 0) prw_args prw_heap = [0; 1] /\ footprint (sk_prw 2 [0] [1] [] 0) prw_args prw_heap = [].
+Proof. exact old_prw_changes_arguments. Qed.
+Print Assumptions C15_prefix_process_regularization_weights_changes_arguments.
+
+(* ------------------------------------------------------------------ mutator methods CPTensor.normalize() / TuckerTensor.normalize()
+   (documented: "the tensor modifies itself"): a safe computation followed by attribute assignments on the receiver changes
+   ONLY the receiver object; every other object of the caller's heap (old weights / core / factor arrays, the old factor
+   list, anything aliased) is untouched.  General form and the two instances. *)
+Theorem C15_method_frame : forall (pre : list cmd) (sets : list (nat * var)) (args : list ref) (h0 : heap),
+  safe (length args) (seq pre) = true -> assigns 0 (seq pre) = false ->
+  forall o, o < length h0 -> target (nth 0 args RNull) <> Some o ->
+  nth_error (snd (exec (seq (pre ++ map (fun p => ListSet 0 (fst p) (snd p)) sets)) (env0 args, h0))) o = nth_error h0 o.
+Proof. exact method_frame. Qed.
+Print Assumptions C15_method_frame.
+
+Theorem C15_cp_normalize_method_frame : forall (self : ref) (h0 : heap) (o : nat), o < length h0 -> target self <> Some o ->
+  nth_error (snd (exec sk_cp_normalize_method (env0 [self], h0))) o = nth_error h0 o.
+Proof. exact cp_normalize_method_frame. Qed.
+Print Assumptions C15_cp_normalize_method_frame.
+
+Theorem C15_tucker_normalize_method_frame : forall (self : ref) (h0 : heap) (o : nat), o < length h0 -> target self <> Some o ->
+  nth_error (snd (exec sk_tucker_normalize_method (env0 [self], h0))) o = nth_error h0 o.
+Proof. exact tucker_normalize_method_frame. Qed.
+Print Assumptions C15_tucker_normalize_method_frame.
+
+Example C15_cp_normalize_method_nonvacuous : footprint sk_cp_normalize_method [RObj 0 []] method_heap = [0].
+Proof. exact cp_normalize_method_nonvacuous. Qed.
 
 (* non-vacuity of the in-place frame statement *)
 Example C15_hals_nnls_nonvacuous :
